@@ -250,6 +250,25 @@ func runC07(c *rt.Ctx) {
 	})
 	c.Exhaustive(fmt.Sprintf("all ordered pairs of the %d-date boundary set", len(B)))
 
+	c.Parallel("pairs-near-duration-limit", 0, func(w *rt.W) {
+		for i := w.Shard; i < len(B); i += w.NShards {
+			for dd := int64(106400); dd <= maxDurDays+2; dd += 1 + (maxDurDays+2-dd)/9 {
+				for _, o2 := range []int64{B[i] + dd, B[i] - dd} {
+					if o2 >= first && o2 <= last {
+						c07Pair(w, B[i], o2)
+						c07Pair(w, o2, B[i])
+					}
+				}
+			}
+			for _, dd := range []int64{maxDurDays - 1, maxDurDays, maxDurDays + 1} {
+				if B[i]+dd <= last {
+					c07Pair(w, B[i]+dd, B[i])
+				}
+			}
+			w.ClassN("pair-near-duration-limit", 1)
+		}
+	})
+	c.Require("pair-near-duration-limit", 1000)
 	yearsG := []int{-400, -100, -4, -1, 0, 1, 3, 4, 100, 400}
 	daysG := []int{-800, -366, -365, -60, -31, -30, -29, -28, -1, 0, 1, 27, 28, 29, 30, 31, 59, 365, 366, 800}
 	if !c.Quick() {
